@@ -28,3 +28,54 @@ Proof.
   exists (fields_D "dtD" "r1" "A_B" "1" "C"), (fields_D "dtD" "r1" "A" "1" "B_C"), "r1/dtD/dtD_A_B_C_r1".
   split; [discriminate|]. split; vm_compute; reflexivity.
 Qed.
+
+(* ---- values free of the rewritten characters ------------------------------------------------------- *)
+Fixpoint clean_for (t : table) (s : string) : bool :=
+  match s with
+  | EmptyString => true
+  | String c r => match tbl_get t c with None => clean_for t r | Some _ => false end
+  end.
+
+(* free of every character FileTemplate.format rewrites (" ", "/", ".", "#" in the current source) *)
+Definition sane (v : string) : Prop :=
+  clean_for GEN_SAN_VALUE v = true /\ clean_for GEN_SAN_SLASH v = true /\ clean_for GEN_SAN_TAIL v = true.
+
+Lemma subst_clean : forall t s, clean_for t s = true -> subst t s = s.
+Proof.
+  intros t. induction s as [|c r IH]; simpl; intro H; [reflexivity|].
+  destruct (tbl_get t c); [discriminate|]. rewrite IH by exact H. reflexivity.
+Qed.
+
+Lemma sanitize_sane_id_p : forall keep v, sane v -> sanitize GEN_SAN_VALUE GEN_SAN_SLASH keep v = v.
+Proof.
+  intros keep v [H1 [H2 _]]. unfold sanitize. rewrite (subst_clean _ _ H1). destruct keep; [reflexivity|apply subst_clean, H2].
+Qed.
+
+Lemma fix_tail_sane_id_p : forall v, sane v -> has_char "/"%char v = false -> fix_tail GEN_SAN_TAIL v = v.
+Proof.
+  intros v [_ [_ H3]] Hs. destruct v as [|c r]; [reflexivity|]. cbn [fix_tail]. rewrite Hs. apply subst_clean, H3.
+Qed.
+
+Lemma length_append : forall a b : string, String.length (a ++ b) = String.length a + String.length b.
+Proof. induction a as [|x a IH]; intro b; simpl; [reflexivity|]. rewrite IH. reflexivity. Qed.
+
+Lemma append_inv_head : forall p a b : string, p ++ a = p ++ b -> a = b.
+Proof. induction p as [|x p IH]; intros a b H; simpl in H; [exact H|]. inversion H. apply IH. assumption. Qed.
+
+Lemma append_inv_tail : forall a b c : string, a ++ c = b ++ c -> a = b.
+Proof.
+  induction a as [|x a IH]; intros [|y b] c H; simpl in H.
+  - reflexivity.
+  - exfalso. apply (f_equal String.length) in H. simpl in H. rewrite length_append in H. lia.
+  - exfalso. apply (f_equal String.length) in H. simpl in H. rewrite length_append in H. lia.
+  - inversion H. f_equal. eapply IH. eassumption.
+Qed.
+
+Lemma template_injective_partial_p : forall (pre post : string) (keep : bool) (v v' : string),
+  sane v -> sane v' ->
+  pre ++ sanitize GEN_SAN_VALUE GEN_SAN_SLASH keep v ++ post = pre ++ sanitize GEN_SAN_VALUE GEN_SAN_SLASH keep v' ++ post ->
+  v = v'.
+Proof.
+  intros pre post keep v v' Hv Hv' H. rewrite !sanitize_sane_id_p in H by assumption.
+  apply append_inv_head in H. apply append_inv_tail in H. exact H.
+Qed.
